@@ -727,7 +727,6 @@ type vAPICmd struct {
 	Run     func(logR, dbR io.Reader, out io.Writer, x string) error
 }
 
-
 // ---------------------------------------------------------------------------
 // watchdog for non-termination. Every in-process run of the program happens between vWatchArm and vWatchDisarm; a run
 // that does not come back within the limit (typical run: milliseconds; the largest generated inputs: seconds) is
